@@ -14,6 +14,8 @@
 #include <sys/resource.h>
 #include <iostream>
 #include <fstream>
+#include <ftw.h>
+#include <exception>
 
 // sanitizer runtime configuration: distinct exit codes so the parent can classify
 extern "C" __attribute__( ( used, visibility( "default" ) ) ) const char * __asan_default_options() {
@@ -238,20 +240,50 @@ static void child_run( const J & plan, PlanFn fn, long cpu_ms ) {
     long stack_kb = plan.num( "stack_kb", 0 );
     ( void )stack_kb;
 
-    try {
-        fn( plan );
-    } catch( std::exception & e ) {
+    // an exception that escapes stepcode would std::terminate() a real application: record it as such
+    std::set_terminate( []() {
+        std::string what = "unknown";
+        try {
+            std::exception_ptr ep = std::current_exception();
+            if( ep ) {
+                std::rethrow_exception( ep );
+            }
+        } catch( std::exception & e ) {
+            what = e.what();
+        } catch( ... ) {
+        }
         Obs o;
-        o.k( "harness_exception", e.what() );
+        o.k( "uncaught_exception", what );
         emit( o );
-        _exit( 98 );
-    }
+        _exit( 96 );
+    } );
+    fn( plan );
     World & w = world();
     Obs o;
     o.k( "done", 1 ).k( "io_opens", ( long long )w.opens ).k( "io_reads", ( long long )w.reads ).k( "io_bytes", ( long long )w.bytes )
     .k( "io_short", ( long long )w.short_reads ).k( "clock_reads", ( long long )w.clock_reads );
     emit( o );
     _exit( 0 );
+}
+
+static int rm_cb( const char * path, const struct stat *, int, struct FTW * ) {
+    return remove( path );
+}
+static void rm_rf( const std::string & dir ) {
+    if( !dir.empty() ) {
+        nftw( dir.c_str(), rm_cb, 16, FTW_DEPTH | FTW_PHYS );
+    }
+}
+// the simulated disk of one plan: a private directory, removed when the plan is done
+static std::string make_plan_dir() {
+    const char * t = getenv( "TMPDIR" );
+    std::string tmpl = std::string( ( t && *t ) ? t : "/tmp" ) + "/verif-sim.XXXXXX";
+    std::vector<char> b( tmpl.begin(), tmpl.end() );
+    b.push_back( 0 );
+    if( !mkdtemp( b.data() ) ) {
+        return "";
+    }
+    return std::string( b.data() );
 }
 
 static void put( const std::string & s ) {
@@ -267,6 +299,12 @@ int server_main( int argc, char ** argv, PlanFn fn, long cpu_ms_default ) {
         g_obs_fd = 1;
         int keep = dup( 1 );
         g_obs_fd = keep;
+        std::string dir = make_plan_dir();
+        if( dir.empty() || chdir( dir.c_str() ) ) {
+            perror( "plan dir" );
+            return 3;
+        }
+        fprintf( stderr, "plan dir (left in place for inspection): %s\n", dir.c_str() );
         child_run( *plan, fn, cpu_ms_default );
         return 0;
     }
@@ -294,6 +332,11 @@ int server_main( int argc, char ** argv, PlanFn fn, long cpu_ms_default ) {
             return 3;
         }
         fflush( stdout );
+        std::string dir = make_plan_dir();
+        if( dir.empty() ) {
+            perror( "mkdtemp" );
+            return 3;
+        }
         pid_t pid = fork();
         if( pid < 0 ) {
             perror( "fork" );
@@ -305,6 +348,9 @@ int server_main( int argc, char ** argv, PlanFn fn, long cpu_ms_default ) {
             dup2( pe[1], 2 );
             close( pe[1] );
             g_obs_fd = po[1];
+            if( chdir( dir.c_str() ) ) {
+                _exit( 97 );
+            }
             child_run( *plan, fn, cpu_ms_default );
             _exit( 0 );
         }
@@ -365,6 +411,7 @@ int server_main( int argc, char ** argv, PlanFn fn, long cpu_ms_default ) {
         struct rusage ru;
         memset( &ru, 0, sizeof ru );
         wait4( pid, &st, 0, &ru );
+        rm_rf( dir );
         long cpu_us = ru.ru_utime.tv_sec * 1000000L + ru.ru_utime.tv_usec + ru.ru_stime.tv_sec * 1000000L + ru.ru_stime.tv_usec;
         Obs e;
         if( killed ) {
@@ -384,7 +431,9 @@ int server_main( int argc, char ** argv, PlanFn fn, long cpu_ms_default ) {
                 e.k( "end", "asan" );
             } else if( ec == 78 ) {
                 e.k( "end", "ubsan" );
-            } else if( ec == 98 ) {
+            } else if( ec == 96 ) {
+                e.k( "end", "exception" );
+            } else if( ec == 98 || ec == 97 ) {
                 e.k( "end", "harness" );
             } else {
                 e.k( "end", "exit" ).k( "code", ec );
